@@ -301,7 +301,7 @@ def write_conversions(ctx, rule):
     from ..cfg import CFG as _CFG
     cfg = _CFG(f)
     casts = [x for x in iter_child_stmts(f.body) if isinstance(x, ast.Assign) and isinstance(x.value, ast.Call) and (callee(x.value) or '').endswith('.astype')
-             and x.value.args and norm(x.value.args[0]) in ("'int64'", "'int32'") and norm(x.targets[0]) == 'data'
+             and x.value.args and norm(x.targets[0]) == 'data' and norm(x.value.func.value) == 'data'
              and any("dtype.kind == 'O'" in norm(e.test) for e, fld in cfg.enclosing_tests(x) if isinstance(e, ast.If))]
     guards = [x for x in iter_child_stmts(f.body) if isinstance(x, ast.If) and any(isinstance(r, ast.Raise) for r in x.body)
               and ('_plain_integers(selement)' in norm(x.test) or 'converted_type' in norm(x.test))]
